@@ -176,7 +176,7 @@ theorem spec_binaryRhsStep (s0 n0 : Nat) (k : BinKind) (lhs : Expr) (stack : Lis
       | none => exact Ok.error
       | some superSp =>
         have f2 := Tok.fwd h2
-        refine Ok.pure ⟨⟨⟨surround_ok hS h2.isStop (Nat.le_refl _) (by nums) (Nat.le_refl _), ?_, ?_⟩, by nums, hstack, by nums⟩, by nums⟩
+        refine Ok.pure ⟨⟨⟨surround_ok hS h2.isStop (Nat.le_refl _) (by nums) (Nat.le_refl _), ?_, ?_, rfl, rfl⟩, by nums, hstack, by nums⟩, by nums⟩
         · exact hwf.mono (Nat.le_refl _) (by nums)
         · exact h2.spanOK (by nums) (by nums)
     · refine Ok.pure ⟨stateOK_nextStateOf k ⟨⟨hwf, by nums, hstack⟩, by nums⟩, f1⟩
@@ -199,12 +199,12 @@ theorem spec_parsedStep (s0 n0 : Nat) (fuel : Nat) (e : Expr) (item : StackItem)
     obtain ⟨hl, hls, hrest⟩ := hstack
     have hlS := hl.spanOK.2.2.2.1
     have hlle := hl.spanOK.2.1
-    refine Ok.pure ⟨⟨⟨surround_ok hlS hE (Nat.le_refl _) (by nums) (Nat.le_refl _), ?_, ?_⟩, hstop, hrest, hn⟩, by nums⟩
+    refine Ok.pure ⟨⟨⟨surround_ok hlS hE (Nat.le_refl _) (by nums) (Nat.le_refl _), ?_, ?_, rfl, rfl⟩, hstop, hrest, hn⟩, by nums⟩
     · exact hl.mono (Nat.le_refl _) (by nums)
     · exact hwf.mono (by nums) (Nat.le_refl _)
   | unary op opSp =>
     obtain ⟨⟨h1, h2, h3⟩, hrest⟩ := hstack
-    refine Ok.pure ⟨⟨⟨surround_ok h3 hE (Nat.le_refl _) (by nums) (Nat.le_refl _), ?_⟩, hstop, hrest, hn⟩, by nums⟩
+    refine Ok.pure ⟨⟨⟨surround_ok h3 hE (Nat.le_refl _) (by nums) (Nat.le_refl _), ?_, rfl⟩, hstop, hrest, hn⟩, by nums⟩
     exact hwf.mono (by nums) (Nat.le_refl _)
   | suffix =>
     unfold parsedStep
@@ -297,7 +297,8 @@ theorem spec_primaryStep (s0 n0 : Nat) (fuel : Nat) (stack : List StackItem) (st
   -- `keyword e` forms: import / importstr / importbin / error
   have kw : ∀ (mk : Expr → Span → Expr) (st1 st2 : PState toks) (startSp : Span),
       (∀ e sp, (mk e sp).span = sp) →
-      (∀ e sp, (mk e sp).WF toks sp.start sp.stop ↔ SpanOK toks sp.start sp.stop sp ∧ e.WF toks sp.start sp.stop) →
+      (∀ e sp, (mk e sp).WF toks sp.start sp.stop ↔
+        SpanOK toks sp.start sp.stop sp ∧ e.WF toks sp.start sp.stop ∧ e.span.stop = sp.stop) →
       Same st st1 → Tok st1 startSp st2 →
       Ok (do
         let (e, st) ← pe st2
@@ -309,7 +310,7 @@ theorem spec_primaryStep (s0 n0 : Nat) (fuel : Nat) (stack : List StackItem) (st
     have f3 := h3.fwd
     refine Ok.pure (done _ st3 ?_ ?_ ?_ ?_ (by nums))
     · rw [hsp]
-      refine (hwf _ _).2 ⟨surround_ok ht.isStart h3.isStop (Nat.le_refl _) (by nums) (Nat.le_refl _), ?_⟩
+      refine (hwf _ _).2 ⟨surround_ok ht.isStart h3.isStop (Nat.le_refl _) (by nums) (Nat.le_refl _), ?_, rfl⟩
       exact h3.wf (by nums) (by nums)
     · rw [hsp]; nums
     · rw [hsp]; nums
@@ -374,7 +375,7 @@ theorem spec_primaryStep (s0 n0 : Nat) (fuel : Nat) (stack : List StackItem) (st
       refine Ok.bind (spec_expectIdent hord true st5) ?_
       intro name st6 h6
       have f6 := h6.fwd
-      refine Ok.pure (done _ st6 ⟨surround_ok h4.isStart h6.isStop (Nat.le_refl _) (by nums) (Nat.le_refl _), ?_, ?_⟩
+      refine Ok.pure (done _ st6 ⟨surround_ok h4.isStart h6.isStop (Nat.le_refl _) (by nums) (Nat.le_refl _), ?_, ?_, rfl, rfl⟩
         (by nums) (by nums) (by nums) (by nums))
       · exact h4.spanOK (by nums) (by nums)
       · exact h6.spanOK (by nums) (by nums)
@@ -394,7 +395,7 @@ theorem spec_primaryStep (s0 n0 : Nat) (fuel : Nat) (stack : List StackItem) (st
         refine Ok.bind (spec_expectSimple hord .RightBracket true st7) ?_
         intro endSp st8 h8
         have f8 := h8.fwd
-        refine Ok.pure (done _ st8 ⟨surround_ok h4.isStart h8.isStop (Nat.le_refl _) (by nums) (Nat.le_refl _), ?_, ?_⟩
+        refine Ok.pure (done _ st8 ⟨surround_ok h4.isStart h8.isStop (Nat.le_refl _) (by nums) (Nat.le_refl _), ?_, ?_, rfl⟩
           (by nums) (by nums) (by nums) (by nums))
         · exact h4.spanOK (by nums) (by nums)
         · exact h7.wf (by nums) (by nums)
@@ -421,7 +422,7 @@ theorem spec_primaryStep (s0 n0 : Nat) (fuel : Nat) (stack : List StackItem) (st
     refine Ok.bind (hpe st8) ?_
     intro inner st9 h9
     have f9 := h9.fwd
-    refine Ok.pure (done _ st9 ⟨surround_ok h5.isStart h9.isStop (Nat.le_refl _) (by nums) (Nat.le_refl _), ?_, ?_⟩
+    refine Ok.pure (done _ st9 ⟨surround_ok h5.isStart h9.isStop (Nat.le_refl _) (by nums) (Nat.le_refl _), ?_, ?_, rfl⟩
       (by nums) (by nums) (by nums) (by nums))
     · exact hbinds.mono (Nat.le_refl _) (by nums)
     · exact h9.wf (by nums) (by nums)
@@ -454,13 +455,13 @@ theorem spec_primaryStep (s0 n0 : Nat) (fuel : Nat) (stack : List StackItem) (st
       refine Ok.bind (hpe st10) ?_
       intro elseB st11 h11
       have f11 := h11.fwd
-      refine Ok.pure (done _ st11 ⟨surround_ok h6.isStart h11.isStop (Nat.le_refl _) (by nums) (Nat.le_refl _), ?_, ?_, ?_⟩
+      refine Ok.pure (done _ st11 ⟨surround_ok h6.isStart h11.isStop (Nat.le_refl _) (by nums) (Nat.le_refl _), ?_, ?_, ?_, rfl⟩
         (by nums) (by nums) (by nums) (by nums))
       · exact h7.wf (by nums) (by nums)
       · exact h9.wf (by nums) (by nums)
       · exact h11.wf (by nums) (by nums)
     | none =>
-      refine Ok.pure (done _ st10 ⟨surround_ok h6.isStart h9.isStop (Nat.le_refl _) (by nums) (Nat.le_refl _), ?_, ?_, trivial⟩
+      refine Ok.pure (done _ st10 ⟨surround_ok h6.isStart h9.isStop (Nat.le_refl _) (by nums) (Nat.le_refl _), ?_, ?_, trivial, rfl⟩
         (by nums) (by nums) (by nums) (by nums))
       · exact h7.wf (by nums) (by nums)
       · exact h9.wf (by nums) (by nums)
@@ -485,7 +486,7 @@ theorem spec_primaryStep (s0 n0 : Nat) (fuel : Nat) (stack : List StackItem) (st
     refine Ok.bind (hpe st9) ?_
     intro body st10 h10
     have f10 := h10.fwd
-    refine Ok.pure (done _ st10 ⟨surround_ok h7.isStart h10.isStop (Nat.le_refl _) (by nums) (Nat.le_refl _), ?_, ?_⟩
+    refine Ok.pure (done _ st10 ⟨surround_ok h7.isStart h10.isStop (Nat.le_refl _) (by nums) (Nat.le_refl _), ?_, ?_, rfl⟩
       (by nums) (by nums) (by nums) (by nums))
     · exact hps.mono (Nat.le_refl _) (by nums)
     · exact h10.wf (by nums) (by nums)
@@ -506,7 +507,7 @@ theorem spec_primaryStep (s0 n0 : Nat) (fuel : Nat) (stack : List StackItem) (st
     refine Ok.bind (hpe st9) ?_
     intro inner st10 h10
     have f10 := h10.fwd
-    refine Ok.pure (done _ st10 ⟨surround_ok ha2 h10.isStop (Nat.le_refl _) (by nums) (Nat.le_refl _), ?_, ?_⟩
+    refine Ok.pure (done _ st10 ⟨surround_ok ha2 h10.isStop (Nat.le_refl _) (by nums) (Nat.le_refl _), ?_, ?_, rfl⟩
       (by nums) (by nums) (by nums) (by nums))
     · exact ha3.mono (by nums) (by nums)
     · exact h10.wf (by nums) (by nums)
@@ -610,4 +611,74 @@ theorem spec_parseExprF : ∀ fuel : Nat, PeOK (toks := toks) (parseExprF fuel) 
     exact ⟨a, b, c, by nums, by nums, by nums, e'⟩
 
 end
+theorem eatEof_true {toks : List Token} {st st' : PState toks} {add : Bool}
+    (h : eatEof add st = .ok (true, st')) : st.cur.kind = .eof ∧ st.rem = [] := by
+  unfold eatEof at h
+  split at h
+  · next hk =>
+    split at h
+    · next hr => exact ⟨hk, by simpa using hr⟩
+    · cases h
+  · cases h
+
+theorem parseRootF_ok {toks : List Token} {fuel : Nat} {st : PState toks} {e : Expr}
+    (h : parseRootF fuel st = .ok e) :
+    ∃ st1, parseExprF fuel st = .ok (e, st1) ∧ st1.cur.kind = .eof ∧ st1.rem = [] := by
+  unfold parseRootF at h
+  cases h1 : parseExprF fuel st with
+  | error err => rw [h1] at h; cases h
+  | ok r =>
+    obtain ⟨e1, st1⟩ := r
+    rw [h1] at h
+    simp only [bind, Except.bind] at h
+    cases h2 : eatEof true st1 with
+    | error err => rw [h2] at h; cases h
+    | ok r2 =>
+      obtain ⟨b, st2⟩ := r2
+      rw [h2] at h
+      dsimp only at h
+      cases b with
+      | false => cases h
+      | true =>
+        simp only [if_true, pure, Except.pure] at h
+        cases h
+        exact ⟨st1, rfl, eatEof_true h2⟩
+
+/-- **Spans of a successful parse** (used by `C15_spans_nested`). -/
+theorem parse_ok_spans {toks : List Token} {e : Expr} (hord : Ord toks) (h : parse toks = .ok e) :
+    e.WF toks e.span.start e.span.stop ∧
+    (∃ t0 rest, toks = t0 :: rest ∧ e.span.start = t0.span.start) ∧
+    (∃ body tl eof, toks = body ++ [tl, eof] ∧ eof.kind = .eof ∧ e.span.stop = tl.span.stop) := by
+  unfold parse parseWithFuel at h
+  split at h
+  · cases h
+  · next t r =>
+    dsimp only at h
+    split at h
+    · next e' hroot =>
+      cases h
+      obtain ⟨st1, hp, hk, hr⟩ := parseRootF_ok hroot
+      have hpost := spec_parseExprF hord _ _ _ _ hp
+      obtain ⟨hwf, hs, he, _, _, _, hlt⟩ := hpost
+      refine ⟨hwf, ⟨t, r, rfl, hs⟩, ?_⟩
+      have happ := st1.pre_append
+      rw [hr] at happ
+      have hlen : st1.pre ≠ [] := by
+        intro hnil
+        rw [hnil] at happ
+        have h1 : ([] ++ [st1.cur]).length = (t :: r).length := congrArg List.length happ
+        simp only [hr, List.length_nil, List.length_cons, List.nil_append] at hlt h1
+        omega
+      obtain ⟨body, tl, hb⟩ : ∃ body tl, st1.pre = body ++ [tl] :=
+        ⟨st1.pre.dropLast, st1.pre.getLast hlen, (List.dropLast_concat_getLast hlen).symm⟩
+      refine ⟨body, tl, st1.cur, ?_, hk, ?_⟩
+      · rw [hb] at happ
+        simpa using happ.symm
+      · rw [he]
+        unfold PState.prev
+        rw [hb]; simp
+    · cases h
+    · cases h
+
+
 end Rsj.Parser
